@@ -361,6 +361,14 @@ def classify(ctx, proofs_ok, oracle_fail, corr_fail, search=None, name="corr"):
 
 
 def finish(ctx, level_text, rule, extra_cov=None, assumptions=None):
+    # one source for the claim text: the manifest's level text (lib/checks.json), if the property is registered
+    try:
+        reg = json.load(open(os.path.join(ROOT, "lib", "checks.json"))).get(ctx.pid)
+        if reg:
+            level_text = reg["text"]
+            assumptions = assumptions or (TRUSTED_BASE + [reg["note"]])
+    except (OSError, ValueError):
+        pass
     evals = sum(s.get("evaluations", 0) for s in ctx.suites)
     distinct = sum(s.get("distinct", 0) for s in ctx.suites)
     cov = {
